@@ -78,6 +78,7 @@ enum OpKind {
         OP_DRAIN,
         OP_QUIESCE,
         OP_QAPI, // a: 0 cat_is_busy, 1 cat_is_hold, 2 cat_is_unsolicited_buffer_full
+        OP_TRIGCB, // a = cmd, b = type, c = 0 inside an io read callback / 1 inside an io write callback, d = callbacks of that kind to skip first
         OP_PUMP, // a = cmd, b = type, c = rounds, d = triggers per round: (d triggers, then service until no event is waiting) x c
 };
 
